@@ -2,9 +2,11 @@
 from props import compile_common as cc
 
 LEVEL = 'proof'
-MODULES = ['Pysmi.Props.C08', 'Pysmi.Props.C08Closure']
-LAKE_TARGETS = ['Pysmi.Props.C08', 'Pysmi.Props.C08Closure']
+MODULES = ['Pysmi.Props.C08', 'Pysmi.Props.C08Closure', 'Pysmi.Pins.Compile']
+LAKE_TARGETS = ['Pysmi.Props.C08', 'Pysmi.Props.C08Closure', 'Pysmi.Pins.Compile']
 THEOREMS = [
+    'Pysmi.Pins.Compile.pin_statuses',
+    'Pysmi.Pins.Compile.pin_skeleton',
     'Pysmi.Compile.C08_terminates',
     'Pysmi.Compile.discover_terminates_aux',
     'Pysmi.Compile.C08_nonterminating_witness',
